@@ -171,15 +171,108 @@ def gen_op(rng, layout):
     return dict(op='fh', key=key, fn=fn, mode=rng.choice(MODES))
 
 
-def nontrivial(case):
+def nontrivial(case, links=None):
     """a symlink of the layout is named by the key or by a filename component, or the key / filename
-    contains a separator, a dot or a NUL"""
-    _, _, links = layout_names(case['layout'])
+    contains a separator, a dot or a NUL (for a step of a sequence: `links` = the names that are symlinks
+    at that step)"""
+    if links is None:
+        _, _, links = layout_names(case['layout'])
     key, fn = case['key'], case['fn']
     if any(ch in key or ch in fn for ch in ('/', '\\', '.', '\x00')):
         return True
     comps = [key] + fn.replace(SBTOKEN, '').split('/')
     return any(c in links for c in comps)
+
+
+# ------------------------------------------------------------------------------------------ sequences
+# A *sequence case* has, besides layout / via_link / gitignore, a list `steps`; a step is
+# dict(mut=[[kind, relpath, arg], ...], op, key, fn, mode): the layout mutations are applied to the
+# sandbox (by the harness, all inside SB), then the operation runs on the SAME LocalStorage instance.
+# kinds: link (replace by a symlink to arg), remove, dir (replace by a directory, arg = name of a file
+# to put inside or ''), file (replace by a regular file with content arg).
+LINK_TARGETS_KEY = ['../outside/dir', SBTOKEN + '/outside/dir', '../outside', '../outside/canary.txt', '../nonexistent',
+                    'k2', 'k1', '.', 'zb/../zx', SBTOKEN + '/outside/dir/sub']
+LINK_TARGETS_FILE = ['../../outside/canary.txt', SBTOKEN + '/outside/canary.txt', '../../outside/newfile', 'zl/../zy',
+                     '../../outside/dir/deep.txt', 'metadata.json', '../k2/data']
+
+
+def gen_mutation(rng, K):
+    """layout mutations around key K"""
+    r = rng.random()
+    if r < 0.40:
+        t = rng.choice(LINK_TARGETS_KEY + [K])
+        muts = [['link', f'store/{K}', t]]
+        if t == 'zb/../zx':
+            muts += [['link', 'store/zb', 'zb'], ['link', 'store/zx', rng.choice(['../outside/dir', '../outside/canary.txt'])]]
+        return muts
+    if r < 0.52:
+        return [['remove', f'store/{K}', '']]
+    if r < 0.64:
+        return [['dir', f'store/{K}', rng.choice(['data', ''])]]
+    if r < 0.70:
+        return [['file', f'store/{K}', 'plain']]
+    f = rng.choice(['data', 'metadata.json', 'f'])
+    if r < 0.92:
+        t = rng.choice(LINK_TARGETS_FILE)
+        muts = [['link', f'store/{K}/{f}', t]]
+        if t == 'zl/../zy':
+            muts += [['link', f'store/{K}/zl', 'zl'], ['link', f'store/{K}/zy', '../../outside/canary.txt']]
+        return muts
+    return [['file', f'store/{K}/{f}', 'again']]
+
+
+def gen_sequence(rng, layout):
+    rootn, keyn, _ = layout_names(layout)
+    simple = [n for n in rootn if n.isalnum()]
+    K = rng.choice(['k1', 'k1', 'k2', 'newkey', 'newkey'] + simple)
+    files = ['data', 'metadata.json', 'f'] + keyn[:4]
+    steps = []
+    for i in range(rng.choice([2, 3, 3, 4])):
+        muts = []
+        if rng.random() < (0.75 if i > 0 else 0.1):
+            muts = gen_mutation(rng, K)
+            if rng.random() < 0.15:
+                muts = muts + gen_mutation(rng, K)
+        key = K if rng.random() < 0.85 else gen_string(rng, rootn, adversarial=False)
+        r = rng.random()
+        if r < 0.25:
+            step = dict(op='exists', key=key, fn='', mode='')
+        elif r < 0.5:
+            step = dict(op='delete', key=key, fn='', mode='')
+        elif r < 0.53:
+            step = dict(op='find_keys', key='', fn='', mode='')
+        else:
+            fn = rng.choice(files) if rng.random() < 0.8 else gen_string(rng, keyn, adversarial=True)
+            step = dict(op='fh', key=key, fn=fn, mode=rng.choice(MODES))
+        steps.append(dict(mut=muts, **step))
+    return steps
+
+
+def apply_mutation(sbx, mut):
+    kind, rel, arg = mut
+    assert '..' not in rel.split('/') and not rel.startswith('/')
+    p = os.path.join(sbx.sb, rel)
+    parent = os.path.dirname(p)
+    if not os.path.isdir(parent) or os.path.islink(parent):
+        return  # only ever edit real directories of the sandbox
+    if os.path.islink(p) or os.path.isfile(p):
+        os.unlink(p)
+    elif os.path.isdir(p):
+        shutil.rmtree(p)
+    if kind == 'link':
+        os.symlink(sbx.sub(arg), p)
+    elif kind == 'dir':
+        os.mkdir(p)
+        if arg:
+            with open(os.path.join(p, arg), 'w') as f:
+                f.write('re')
+    elif kind == 'file':
+        with open(p, 'w') as f:
+            f.write(arg)
+
+
+def snapshot_links(snap):
+    return {os.path.basename(p) for p, v in snap.items() if v[0] == 'l'}
 
 
 # ------------------------------------------------------------------------------------------ sandbox
